@@ -336,7 +336,7 @@ fn v1_upgrade(tier: Tier, seed: u64) -> Acc {
 
 // ------------------------------------------------------------ (c) manifest shortcut
 
-fn embed_module_graphs(w: &mut RegWorld, v1: bool) {
+pub fn embed_module_graphs(w: &mut RegWorld, v1: bool) {
   let analyzer = ParserModuleAnalyzer::default();
   for p in w.pkgs.iter_mut() {
     for v in p.versions.iter_mut() {
